@@ -17,7 +17,7 @@ import (
 //  (2) builtin calls: every builtin function name x leading-argument pattern (none, texture, texture +
 //      sampler, depth texture + comparison sampler, storage texture, pointer to atomic / workgroup
 //      variable / runtime array, matrix, struct) x 0..N further arguments of one kind (i32, f32, u32,
-//      bool, vec4<f32>, vec2<i32>, texture, pointer to atomic), as a value, as a statement and (up to 2 further arguments) as both operands of a binary operator.
+//      bool, vec4<f32>, vec2<i32>, texture, pointer to atomic), as a value and as a statement; thorough: also (up to 2 further arguments) as both operands of a binary operator.
 
 var c10SwizzleBases = []struct{ name, decl, body string }{
 	{"let", "", "let v = vecW<f32>(1.0); let r = v.S;"},
@@ -148,7 +148,7 @@ func genConstructs(thorough bool) c10Gen {
 						break
 					}
 					for form := 0; form < 3; form++ {
-						if form == 2 && more > 2 {
+						if form == 2 && (more > 2 || !thorough) {
 							continue
 						}
 						cases = append(cases, cs{kind: 'b', a: int32(ni), b: int32(li), c: int32(more), d: int32(ki), e: int8(form)})
